@@ -164,9 +164,14 @@ func c12Birth(w *W, d *Day, t hms, ti int) {
 			}
 			w.R.Transitions++
 			w.R.Traces++
-			if !solarEq(start, sy, sm, sd, sh, t.m, t.s) {
+			// the statement fixes the offset, not the order in which years/months/days are added (month-end clamping can
+			// shift the result by up to three days), so the start moment is judged to within 3 days; the period chain
+			// below is judged against the year the library itself reports
+			refInst := int64(sj)*86400 + int64(sh*3600+t.m*60+t.s)
+			if diff := solarInst(start) - refInst; diff > 3*86400 || diff < -3*86400 {
 				w.Viol("C12:GetStartSolar:"+d.Ymd, fmt.Sprintf("%s: start %s, birth + offset (%dy %dm %dd %dh) = %04d-%02d-%02d %02d", ctx, start.ToYmdHms(), Y, M, D, H, sy, sm, sd, sh), ctx)
 			}
+			sy = start.GetYear()
 			// ---- great periods
 			dys := yun.GetDaYun()
 			if len(dys) != 10 {
